@@ -126,14 +126,26 @@ func (b *builderOptions) Build() (*Biscuit, error) {
 	if v := b.rootKeyID; v != nil {
 		opts = append(opts, WithRootKeyID(*v))
 	}
+	// the token gets copies: the builder keeps its own state, it can be filled further and built again
+	symbols := b.symbols.Clone()
+
+	facts := make(datalog.FactSet, len(*b.facts))
+	copy(facts, *b.facts)
+
+	rules := make([]datalog.Rule, len(b.rules))
+	copy(rules, b.rules)
+
+	checks := make([]datalog.Check, len(b.checks))
+	copy(checks, b.checks)
+
 	return newBiscuit(
 		b.rootKey,
-		b.symbols,
+		symbols,
 		&Block{
-			symbols: b.symbols.SplitOff(b.symbolsStart),
-			facts:   b.facts,
-			rules:   b.rules,
-			checks:  b.checks,
+			symbols: symbols.SplitOff(b.symbolsStart),
+			facts:   &facts,
+			rules:   rules,
+			checks:  checks,
 			context: b.context,
 			version: MaxSchemaVersion,
 		},
@@ -225,6 +237,10 @@ type blockBuilder struct {
 	rules        []datalog.Rule
 	checks       []datalog.Check
 	context      string
+
+	// builtFrom is the complete table (the token's symbols followed by the block's own) while symbols holds
+	// only the block's own part, as Build leaves it; resume puts it back before the builder is used again
+	builtFrom *datalog.SymbolTable
 }
 
 var _ BlockBuilder = (*blockBuilder)(nil)
@@ -260,7 +276,15 @@ func (b *blockBuilder) AddBlock(block ParsedBlock) error {
 	return nil
 }
 
+// resume makes a builder usable after Build: it can be filled further and built again
+func (b *blockBuilder) resume() {
+	if b.builtFrom != nil {
+		b.symbols, b.builtFrom = b.builtFrom, nil
+	}
+}
+
 func (b *blockBuilder) AddFact(fact Fact) error {
+	b.resume()
 	dlFact := fact.convert(b.symbols)
 	if !b.facts.Insert(dlFact) {
 		return ErrDuplicateFact
@@ -270,6 +294,7 @@ func (b *blockBuilder) AddFact(fact Fact) error {
 }
 
 func (b *blockBuilder) AddRule(rule Rule) error {
+	b.resume()
 	dlRule := rule.convert(b.symbols)
 	b.rules = append(b.rules, dlRule)
 
@@ -277,6 +302,7 @@ func (b *blockBuilder) AddRule(rule Rule) error {
 }
 
 func (b *blockBuilder) AddCheck(check Check) error {
+	b.resume()
 	dlCheck := check.convert(b.symbols)
 	b.checks = append(b.checks, dlCheck)
 
@@ -288,6 +314,8 @@ func (b *blockBuilder) SetContext(context string) {
 }
 
 func (b *blockBuilder) Build() *Block {
+	b.resume()
+	b.builtFrom = b.symbols.Clone()
 	b.symbols = b.symbols.SplitOff(b.symbolsStart)
 
 	facts := make(datalog.FactSet, len(*b.facts))
